@@ -839,6 +839,20 @@ func contentFrom(v, src ssa.Value) bool {
 			}
 		case *ssa.Extract:
 			return rec(x.Tuple, d+1)
+		case *ssa.Parameter:
+			// a helper's parameter: what its callers pass
+			if g := x.Parent(); g != nil && g.Parent() == nil && g.Object() != nil && !g.Object().Exported() {
+				for i, gp := range g.Params {
+					if gp != x {
+						continue
+					}
+					for _, c := range staticCallersOf(g) {
+						if i < len(c.Call.Args) && rec(c.Call.Args[i], d+1) {
+							return true
+						}
+					}
+				}
+			}
 		case *ssa.UnOp:
 			if x.Op == token.MUL {
 				if a, ok := x.X.(*ssa.Alloc); ok {
